@@ -39,7 +39,7 @@ static struct lp_ctx lpv[2]; /* like the runtime's lps[]: caller = lpv[0], a nei
 static struct guarded ga, gb, gb_ref;
 
 static FILE *f_ops, *f_c, *f_or;
-static unsigned long n_lines, n_viol, n_other_checks, n_range_checks, n_draw_checks;
+static unsigned long n_lines, n_viol, n_other_checks, n_range_checks, n_draw_checks, cnt_gamma_big;
 static unsigned long cnt_next, cnt_bits, cnt_random, cnt_seed, cnt_xxtea, cnt_range, cnt_rrange, cnt_nonuni, cnt_nonuni_neg,
     cnt_onem, cnt_mul, cnt_gammax, cnt_poisson, cnt_gamma, cnt_zipf, cnt_normal, zipf_max_draws;
 static unsigned long lz_hist[65]; /* leading-one position + 1 of the raw outputs fed to Random() (0 = raw 0) */
@@ -511,6 +511,36 @@ int main(int argc, char **argv)
 		print_state(f_c, &ga.ctx);
 		fputc('\n', f_c);
 		n_lines++; cnt_gammax++; cnt_gamma++;
+	}
+
+	/* (8b) Gamma(ia >= 6), the rejection branch (no Lean twin of the loop: implementation-side oracle on crafted and random
+	 * states): finite, non-negative, only the caller's generator touched. Crafted: the FIRST draw of an iteration is the raw
+	 * output 0, i.e. v1 = Random() = 0.0 (the divisor of y = v2 / v1), or the smallest / largest non-zero outputs. */
+	{
+		static const unsigned IA[] = {6, 7, 10, 100, 100000, 4000000000u};
+		for(unsigned long i = 0; i < n / 16 + 400; ++i) {
+			unsigned ia = IA[i % 6];
+			rnd_state(&ga.ctx);
+			if(i % 3 != 2) {
+				static const uint64_t FIRST[] = {0, 0, 0, 2, 3, ~0ull, 1ull << 63, 0};
+				uint64_t u = FIRST[(i / 6) % 8];
+				if(u == 1 && !u1_ok) u = 0;
+				ga.ctx.state[1] = craft_s1(u); /* the next raw output is u, the following ones come from the random rest */
+			}
+			struct rng_ctx before = ga.ctx, scan = before;
+			int has1 = 0;
+			if(!u1_ok)
+				for(unsigned k = 0; k < 256; ++k)
+					has1 |= random_u64(scan.state) == 1;
+			if(has1) continue;
+			double gm = Gamma(ia);
+			other_check("Gamma");
+			n_range_checks++;
+			cnt_gamma_big++;
+			if(!(gm >= 0.0) || !isfinite(gm))
+				viol("RANGE Gamma(%u) state=%llx,%llx,%llx,%llx -> bits %llx (rejection branch: value not finite / negative)", ia,
+				    HX(before.state[0]), HX(before.state[1]), HX(before.state[2]), HX(before.state[3]), HX(dbl_bits(gm)));
+		}
 	}
 
 	/* (9) Zipf: result in [1, limit]; generator advanced by raw draws only; Normal: only the generator checks */
